@@ -117,7 +117,7 @@ pub fn sop_label(o: &SOp) -> String {
         SOp::Redelegate { d, src, dst, amt } => format!("redelegate(d{}, v{}->v{}, {})", d + 1, src + 1, dst + 1, amt),
         SOp::RedelegateForeign { d, src, dst, amt } => format!("redelegate(d{}, v{}->v{}, {} foreign)", d + 1, src + 1, dst + 1, amt),
         SOp::Withdraw { d, v } => format!("withdraw(d{}, v{})", d + 1, v + 1),
-        SOp::SetWithdraw { d, to } => format!("set_withdraw_address(d{}, {})", d + 1, if *to == 9 { "self".to_string() } else { format!("w{}", to) }),
+        SOp::SetWithdraw { d, to } => format!("set_withdraw_address(d{}, {})", d + 1, if *to == 9 { "self".to_string() } else if *to == 8 { "other".to_string() } else { format!("w{}", to) }),
         SOp::Slash { v, pct } => format!("slash(v{}, {}%)", v + 1, pct),
         SOp::Advance { secs } => format!("advance({}s)", secs),
         SOp::SetBlock { secs } => format!("set_block(+{}s)", secs),
@@ -164,7 +164,7 @@ pub fn sop_parse(s: &str, all: &[SOp]) -> SOp {
             }
         }
         ("withdraw", 2) => SOp::Withdraw { d: idx(args[0], 'd'), v: idx(args[1], 'v') },
-        ("set_withdraw_address", 2) => SOp::SetWithdraw { d: idx(args[0], 'd'), to: if args[1] == "self" { 9 } else { args[1].strip_prefix('w').and_then(|x| x.parse().ok()).unwrap_or_else(|| bad()) } },
+        ("set_withdraw_address", 2) => SOp::SetWithdraw { d: idx(args[0], 'd'), to: if args[1] == "self" { 9 } else if args[1] == "other" { 8 } else { args[1].strip_prefix('w').and_then(|x| x.parse().ok()).unwrap_or_else(|| bad()) } },
         ("slash", 2) => SOp::Slash { v: idx(args[0], 'v'), pct: args[1].strip_suffix('%').and_then(|x| x.parse().ok()).unwrap_or_else(|| bad()) },
         ("advance", 1) => match args[0].strip_suffix("ns") {
             Some(n) => SOp::AdvanceNanos { nanos: n.parse().unwrap_or_else(|_| bad()) },
@@ -455,7 +455,8 @@ pub fn step(app: &mut SApp, nm: &Names, st: &SState, op: &SOp, cfg: &Cfg, ops_al
             .map(|_| ())
             .map_err(|e| format!("{:#}", e)),
         SOp::SetWithdraw { d, to } => {
-            let a = if *to == 9 { nm.delegators[*d as usize].clone() } else { nm.withdraw[*to as usize].clone() };
+            // 9: the delegator itself (a reset); 8: the OTHER delegator (withdraw addresses may point at each other)
+            let a = if *to == 9 { nm.delegators[*d as usize].clone() } else if *to == 8 { nm.delegators[(*d ^ 1) as usize].clone() } else { nm.withdraw[*to as usize].clone() };
             app.execute(d_addr(*d), DistributionMsg::SetWithdrawAddress { address: a }.into()).map(|_| ()).map_err(|e| format!("{:#}", e))
         }
         SOp::Slash { v, pct } => app
@@ -696,6 +697,7 @@ pub fn step(app: &mut SApp, nm: &Names, st: &SState, op: &SOp, cfg: &Cfg, ops_al
                 // shows no reward figure either, and the figure of StakeKeeper::get_rewards is used
                 let paid = if pre.deleg[&(*d, *v)] > 0 { pre.pending[&(*d, *v)] } else { pre.keeper_rewards[&(*d, *v)].unwrap_or(0) };
                 let target = match h.withdraw_to.get(d) {
+                    Some(8) => (*d ^ 1) as usize,
                     Some(w) => nm.delegators.len() + *w as usize,
                     None => *d as usize,
                 };
@@ -1580,9 +1582,24 @@ pub fn run_c15(ctx: &Ctx) -> i32 {
     ];
     let cfg4 = Cfg { check_rewards: true, prop: "C15".into(), funds: 1000, unbonding: UNBONDING, payout_is_home: false, apr_pct: APR_PCT, reg_ahead_s: YEAR / 2 };
     let out4 = explore(ctx, &nm, &alpha4, ctx.tier.pick(5, 6), &cfg4, false, 2_000_000);
+    // withdraw addresses that point at each other (and back at oneself): whoever the current
+    // withdraw address of the withdrawing delegator is gets the reward
+    let alpha5 = vec![
+        SOp::Delegate { d: 0, v: 0, amt: 100, denom: 0 },
+        SOp::Delegate { d: 1, v: 0, amt: 333, denom: 0 },
+        SOp::SetWithdraw { d: 0, to: 8 },
+        SOp::SetWithdraw { d: 1, to: 8 },
+        SOp::SetWithdraw { d: 0, to: 9 },
+        SOp::SetWithdraw { d: 1, to: 0 },
+        SOp::Advance { secs: YEAR / 3 },
+        SOp::Withdraw { d: 0, v: 0 },
+        SOp::Withdraw { d: 1, v: 0 },
+    ];
+    let cfg5 = Cfg { check_rewards: true, prop: "C15".into(), funds: 1000, unbonding: UNBONDING, payout_is_home: false, apr_pct: APR_PCT, reg_ahead_s: 0 };
+    let out5 = explore(ctx, &nm, &alpha5, ctx.tier.pick(5, 6), &cfg5, false, 2_000_000);
     finish(
         ctx,
-        vec![("reward-histories", &out, alpha.iter().map(sop_label).collect::<Vec<_>>()), ("sub-second-block-times-large-stakes", &out2, alpha2.iter().map(sop_label).collect::<Vec<_>>()), ("fractional-stakes-over-a-century", &out3, alpha3.iter().map(sop_label).collect::<Vec<_>>()), ("validators-registered-ahead-of-the-clock", &out4, alpha4.iter().map(sop_label).collect::<Vec<_>>())],
+        vec![("reward-histories", &out, alpha.iter().map(sop_label).collect::<Vec<_>>()), ("sub-second-block-times-large-stakes", &out2, alpha2.iter().map(sop_label).collect::<Vec<_>>()), ("fractional-stakes-over-a-century", &out3, alpha3.iter().map(sop_label).collect::<Vec<_>>()), ("validators-registered-ahead-of-the-clock", &out4, alpha4.iter().map(sop_label).collect::<Vec<_>>()), ("withdraw-addresses-pointing-at-each-other", &out5, alpha5.iter().map(sop_label).collect::<Vec<_>>())],
         n,
         json!({"depth": depth, "stakes": [100, 333], "time_steps_s": [YEAR / 3, YEAR / 2, YEAR, 1], "split_variants": "every advance of {1/3 y, 1/2 y, 1 y, 7 s} from every explored state, unsplit vs split into 2 and 3 block updates"}),
         {
